@@ -147,9 +147,14 @@ def spec_c17(case, trace):
 
 
 class Hang(RuntimeError):
-    def __init__(self, case):
-        RuntimeError.__init__(self, "the harness did not come back on `%s`: the loop thread is blocked (a blocking call on an fd the "
-                                    "loop believes non-blocking?)" % " ; ".join(case[1:]))
+    """the harness process did not come back, or died, on one case"""
+    def __init__(self, case, died=None):
+        if died is None:
+            msg = ("the harness did not come back on `%s`: the loop thread is blocked (a blocking call on an fd the loop believes "
+                   "non-blocking?)" % " ; ".join(case[1:]))
+        else:
+            msg = "the harness process died on `%s`: %s" % (" ; ".join(case[1:]), died)
+        RuntimeError.__init__(self, msg)
         self.case = case
 
 
@@ -166,6 +171,13 @@ def run_all(cases, have_drv=True):
                     raise Hang(c)
         if rc == 124 and len(chunk) == 1:
             raise Hang(chunk[0])
+        if rc != 0 and len(chunk) > 1:
+            # a process that dies (a panic while a source is dropped inside the loop aborts): find the case
+            for c in chunk:
+                rc1, _, err1 = C.run_vh("asyncio", "\n".join(c) + "\n", timeout=20)
+                if rc1 not in (0, 124):
+                    tail = [l for l in err1.splitlines() if "panicked at" in l or "already" in l or "abort" in l]
+                    raise Hang(c, died=(" | ".join(tail[-3:]) or err1[-200:]))
         if rc != 0:
             raise RuntimeError("vh asyncio failed: " + err[-300:])
         model = None
